@@ -390,7 +390,7 @@ def _check(case, stats=None):
         def clear(fs):
             return [f for f in fs if not any(_under(f, u) for u in ref["unclear"])]
         l0, l1, l2 = clear(l0), clear(l1), clear(l2)
-        exp = ref["expected"]
+        exp = clear(ref["expected"])
         if stats is not None:
             stats["found"] += len(l0)
         if not (l0 == l1 == l2):
@@ -459,7 +459,7 @@ def _check(case, stats=None):
         names = {rel(f): n for n, f in log}
         if stats is not None:
             stats["imported"] += len(imported)
-        want = ref["loaded"]
+        want = clear(ref["loaded"])
         filtered_out = [f for f in exp if f not in want]
         twice = sorted({f for f in imported if imported.count(f) > 1})
         if twice:
